@@ -31,6 +31,12 @@ func sMstName(m int) string { return fmt.Sprintf("mst%d_0000", m) }
 // series s of a measurement: tags derived from the index; series 2 and 3 have no
 // "region" tag (absent tag = empty value in group keys).
 func sSeriesTags(s int) [][2]string {
+	if sValMode == 2 && s == 4 {
+		// codec cases (C07): the fifth series has no tag at all - a row without tags is a shape of its own in the
+		// row-batch codec of the WAL and the wire (seeded change C07-d: the decoder kept the tags of the slot's
+		// previous occupant)
+		return nil
+	}
 	host := fmt.Sprintf("h%d", s%2)
 	switch s {
 	case 0, 1:
